@@ -273,6 +273,11 @@ func (s *Sim) Boost(t *Task) {
 	}
 }
 
+// CurTask returns the running task (nil outside Run).
+//
+//go:norace
+func (s *Sim) CurTask() *Task { return s.curTask() }
+
 // Unboost ends a Boost.
 //
 //go:norace
